@@ -15,7 +15,8 @@ def U(name, entry, enforce, reach, **kw):
 
 
 UNITS = [
-    U("write", "h_write", "w_client_write", ["write.partial", "write.would_block", "write.behind_backlog", "write.refused"]),
+    U("write", "h_write", "w_client_write", ["write.partial", "write.would_block", "write.behind_backlog", "write.refused"],
+      split=[r"postcondition", r"precondition"], cost=1000, timeout=3000),
     U("write_ready", "h_write_ready", "w_write_ready", ["write_ready.drained", "write_ready.partial", "write_ready.closed"],
       funcs=["Server::Private::run (write-ready branch)"]),
     U("suspend", "h_suspend", "w_client_suspend", ["suspend.change"]),
